@@ -80,8 +80,21 @@ def consistency_case(case, fail):
             gf2.to_dense(code.logicals_z), n)
     rng = np.random.default_rng(case['seed'])
     nt_count = 0
+    from checks.c07_noise_model import expected_table
+    tab = expected_table(code, case['direction'], float(p), case.get('noise_deformation'),
+                         case.get('noise_kwargs') or {})
     for j in range(case['n_once']):
         r = run_once(code, em, dec, p, rng=rng)
+        # the sampled error is an outcome of the stated channel: no qubit
+        # carries a Pauli (or the identity) of probability zero
+        e_ = np.asarray(r['error']).astype(int)
+        for q in range(n):
+            s_ = 'IXZY'[e_[q] + 2 * e_[n + q]]
+            if tab[s_][q] <= 0:
+                fail('trial_error_in_support',
+                     f'trial {j}: qubit {q} carries {s_}, which has probability {tab[s_][q]} '
+                     f'under r={case["direction"]}, p={p}')
+                break
         synd, eff, cs, suc = recompute(mats, r['error'], r['correction'])
         if not np.array_equal(np.asarray(r['syndrome']).ravel() % 2, synd):
             fail('trial_syndrome', f'trial {j}: recorded syndrome != syndrome(error)')
